@@ -1,11 +1,18 @@
 /-
-Executable Spec of C01, evaluated on what the REAL schedules emitted (sampling tie
-for the float64 gap).  Exact rational arithmetic, no square roots:
-  token k at offset t (ns) is accepted iff   cum(t-1) ≤ k + δ  and  cum(t+2) ≥ k - δ
-with cum the exact integral of the configured rate, clamped to [0, D], and
-  δ = 2^-44 · (k + 1 + max(from,to)²·D/(|to-from|·10⁹))
-the float64 rounding of the count-space computation (documented tolerance).
-count: n = ⌊cum(D)⌋, or ±1 when cum(D) is within δ of an integer.
+Executable Spec of C01, evaluated on what the REAL schedules emitted (sampling tie for the float64 gap).
+Exact rational arithmetic, no square roots. `cum p u` is the exact integral of the configured rate of part `p` from
+its start to `u` ns (clamped to [0, D]).
+
+  token k at offset t (ns) is accepted iff  0 ≤ t ≤ D,  cum(t-1) ≤ k + δ  and  cum(t+2) ≥ k - δ
+     (t* = ⌊T_k·10⁹⌋, the proved value, satisfies cum(t*) ≤ k < cum(t*+1); the window admits t* - 1 … t* + 1)
+  count n is accepted iff  n = ⌊cum(D)⌋, or ⌊cum(D)⌋ ∓ 1 when cum(D) is within δ of an integer
+  δ(k) = 2⁻⁴⁴ · (k + 1 + max(from,to)·D/10⁹)      -- in COUNT space
+
+Justification of δ (notes/C01.md has the derivation): with ε = 2⁻⁵³ every float64 step of `constDoAt`, `lineDoAt`
+(cancellation-free form) and of the count formulas is a sum/product/quotient/sqrt of non-negative quantities or one
+subtraction `b² − 2|a|k` whose absolute error ε·b² enters the count as ≤ 2ε·b·x; altogether the count-space error of
+token k is below 16ε·(k + max(from,to)·x) ≤ 2⁻⁴⁹·(k + max·D).  δ leaves a factor 32 on top of that, and stays far below
+one operation for every profile the generator can drain (≤ 3·10⁶ tokens: δ < 4·10⁻⁷).
 -/
 import Pandora.Spec.Q
 
@@ -38,16 +45,15 @@ def Part.cum (p : Part) (u : Int) : Q :=
 
 def Part.total (p : Part) : Q := p.cum p.dur
 
+/-- the larger end rate -/
+def Part.maxRate : Part → Q
+  | .const ops _ => ops
+  | .line f t _ => Q.max f t
+  | .once _ => Q.ofInt 0
+
 /-- count-space rounding tolerance -/
 def Part.delta (p : Part) (k : Int) : Q :=
-  let base := Q.ofInt (k + 1)
-  let extra : Q := match p with
-    | .line f t d =>
-        let m := Q.max f t
-        let df := Q.abs (t - f)
-        if df.isZero then Q.ofInt 0 else Q.norm (m * m * Q.ofInt d / (df * billion))
-    | _ => Q.ofInt 0
-  Q.norm ((base + extra) * Q.pow2neg 44)
+  Q.norm ((Q.ofInt (k + 1) + Q.norm (p.maxRate * Q.ofInt p.dur / billion)) * Q.pow2neg 44)
 
 /-- acceptable counts [lo, hi] -/
 def Part.countRange (p : Part) : Int × Int :=
@@ -70,43 +76,50 @@ def Part.tokenOk (p : Part) (k t : Int) : Bool :=
     0 ≤ t && t ≤ p.dur &&
     Q.le (p.cum (t - 1)) (Q.ofInt k + d) && Q.le (Q.ofInt k - d) (p.cum (t + 2))
 
-/-- the parts a configured profile consists of (`none` = malformed input line) -/
-def stepLevels (f t : Q) (step : Int) (fuel : Nat) : List Q :=
-  match fuel with
-  | 0 => []
-  | fuel + 1 => if Q.le f t then f :: stepLevels (Q.norm (f + Q.ofInt step)) t step fuel else []
-
 structure Obs where
-  n : Int
-  fin : Int
-  finStable : Bool
+  left0 : Int                 -- Left() before Start
+  n : Int                     -- tokens handed out
+  fin : Int                   -- time reported with ok=false, relative to the start
+  finStable : Bool            -- three more calls report the same, Left() = 0
   mono : Bool
   tmin : Int
   tmax : Int
-  toks : List (Int × Int)
+  parts : Option (List Int)   -- step: tokens per level time slot
+  toks : List (Int × Int)     -- sampled (index, offset)
+
+def sumI (l : List Int) : Int := l.foldl (· + ·) 0
 
 /-- verdict for a list of parts laid end to end -/
 def judge (parts : List Part) (o : Obs) : String :=
   let ranges := parts.map Part.countRange
-  let lo := ranges.foldl (fun a r => a + r.1) 0
-  let hi := ranges.foldl (fun a r => a + r.2) 0
-  let finExp := parts.foldl (fun a p => a + p.dur) 0
-  if o.n < lo || o.n > hi then s!"fail:count:n={o.n} expected=[{lo},{hi}]"
+  let finExp := sumI (parts.map Part.dur)
+  -- tokens per part: the harness' time-slot counts for a profile of several parts, otherwise everything
+  let cnts : List Int :=
+    match parts, o.parts with
+    | [_], _ => [o.n]
+    | _, some ps => ps ++ List.replicate (parts.length - ps.length) 0
+    | _, none => parts.map fun _ => 0
+  if cnts.length != parts.length then
+    s!"fail:count:tokens in {cnts.length} level slots, the profile has {parts.length} levels"
+  else if sumI cnts != o.n then s!"fail:driver:slot counts {sumI cnts} do not add up to n={o.n}"
+  else
+  let badCount := (List.zip (List.zip cnts ranges) (List.range parts.length)).find? fun ((c, r), _) => c < r.1 || c > r.2
+  match badCount with
+  | some ((c, r), j) => s!"fail:count:part={j} n={c} expected=[{r.1},{r.2}] total-n={o.n}"
+  | none =>
+  if o.left0 != o.n then s!"fail:left:Left() before start = {o.left0}, tokens handed out = {o.n}"
   else if o.fin != finExp then s!"fail:finish:fin={o.fin} expected={finExp}"
-  else if !o.finStable then "fail:finish:finish time not stable after exhaustion"
+  else if !o.finStable then "fail:finish:finish time or Left() not stable after exhaustion"
   else if !o.mono then "fail:order:token times decrease"
   else if o.n > 0 && (o.tmin < 0 || o.tmax > finExp) then s!"fail:bounds:tmin={o.tmin} tmax={o.tmax} D={finExp}"
-  else if lo != hi && parts.length > 1 then "skip:count-boundary"
   else
-    -- map global token index to (part, local index)
-    let rec locate (ps : List Part) (rs : List (Int × Int)) (k : Int) (off : Int) : Option (Part × Int × Int) :=
-      match ps, rs with
-      | p :: ps', r :: rs' =>
-          let cnt := if parts.length == 1 then o.n else r.1
-          if k < cnt then some (p, k, off) else locate ps' rs' (k - cnt) (off + p.dur)
+    -- map global token index to (part, local index, part start)
+    let rec locate (ps : List Part) (cs : List Int) (k : Int) (off : Int) : Option (Part × Int × Int) :=
+      match ps, cs with
+      | p :: ps', c :: cs' => if k < c then some (p, k, off) else locate ps' cs' (k - c) (off + p.dur)
       | _, _ => none
     let bad := o.toks.find? fun (k, t) =>
-      match locate parts ranges k 0 with
+      match locate parts cnts k 0 with
       | some (p, k', off) => !(p.tokenOk k' (t - off))
       | none => true
     match bad with
